@@ -127,6 +127,10 @@ def judge(ctx, cases, results, codes):
             ctx.violations.append(("panic: %s" % r.get("msg", r.get("stderr", "")), {"case": c, "brief": b})); continue
         if c["mode"] == "stress":
             stats["stress_reads"] += r.get("reads", 0); stats["stress_execs"] += r.get("execs", 0)
+            stats["stress_deep_clones"] = stats.get("stress_deep_clones", 0) + r.get("deep_clones", 0)
+            if r.get("deep_shared"):
+                ctx.violations.append(("deep_clone taken while other threads read / write the parameter is not independent of the original (%d of %d deep clones shared its cell)" % (r["deep_shared"], r["deep_clones"]),
+                                       {"case": c, "brief": b, "result": r}))
             if r.get("torn_get") or r.get("torn_exec"):
                 ctx.violations.append(("a concurrent reader observed a mixture of two parameter arrays (%d torn get(), %d torn gate executions of %d)" % (r["torn_get"], r["torn_exec"], r["execs"]),
                                        {"case": c, "brief": b, "result": r}))
